@@ -22,8 +22,22 @@ import (
 // it is fingerprinted separately and only its observable behaviour (Verify
 // outcomes) is required to be stable.
 func visibleFP(v any) string {
-	return Fingerprint(v, "*cose.Sign1Message")
+	r := FingerprintExported(v, "*cose.Sign1Message")
+	// what the unexported containers hold is visible through the getters
+	switch x := v.(type) {
+	case psatoken.IClaims:
+		r += "|" + ObserveGetters(x)
+	case *psatoken.Evidence:
+		if x != nil && x.Claims != nil {
+			r += "|" + ObserveGetters(x.Claims)
+		}
+	}
+	return r
 }
+
+// internalFP additionally renders unexported fields; a change confined to
+// them (e.g. a cache) is recorded as a class but is not a violation.
+func internalFP(v any) string { return Fingerprint(v, "*cose.Sign1Message") }
 
 func hiddenFP(ev *psatoken.Evidence) string {
 	f := reflect.ValueOf(ev).Elem().FieldByName("message")
@@ -237,6 +251,7 @@ func TestC18_ReadOnly(t *testing.T) {
 			if s.ev != nil {
 				hid0 = hiddenFP(s.ev)
 			}
+			int0 := internalFP(target)
 			n := rapid.IntRange(1, 30).Draw(t, "nops")
 			var seq []string
 			nt := false
@@ -261,6 +276,9 @@ func TestC18_ReadOnly(t *testing.T) {
 			cls := []string{s.desc}
 			if s.sparse {
 				cls = append(cls, "sparse")
+			}
+			if internalFP(target) != int0 {
+				cls = append(cls, "unexported-state-changed(no-verdict)")
 			}
 			if s.ev != nil && hiddenFP(s.ev) != hid0 {
 				cls = append(cls, "hidden-envelope-state-changed(no-verdict)")
